@@ -262,7 +262,7 @@ def sweep(res, label, text, ast_spec, swallow, cached=False):
 
 # ------------------------------------------------------------------ histories
 
-HIST_CALLS = ['ax9 + 1', 'f = v => v + 1; nested("f(1)")', 'h9 = v => t(v); nested("map(l, h9) | len") + h9(1)', 'nested("1 + 1"); f(1)', 'nested("f(1)") + f(2)', 'f = v => v + 1', 'f = v => t(v) + t(v) + v', 'f = v => map(l, w => w + v)', 'f(1)', 'f(2) + f(3)', 'map(l, f)',
+HIST_CALLS = ['ax9 + 1', 'nested_safe("u_undefined + 1"); f(1)', 'f = v => v + 1; nested_safe("1 / 0"); map(l, f)', 'f = v => v + 1; nested("f(1)")', 'h9 = v => t(v); nested("map(l, h9) | len") + h9(1)', 'nested("1 + 1"); f(1)', 'nested("f(1)") + f(2)', 'f = v => v + 1', 'f = v => t(v) + t(v) + v', 'f = v => map(l, w => w + v)', 'f(1)', 'f(2) + f(3)', 'map(l, f)',
               'n', 'g9 = f; g9(1)', 'apply(f, 1)', 'sorted(l, f)']
 
 
@@ -289,6 +289,13 @@ def run_hist_call(res, hist, budgets):
         finally:
             c.frames.pop()
     names['nested'] = nested
+
+    def nested_safe(src):
+        try:
+            return nested(src)
+        except Exception:  # noqa
+            return None
+    names['nested_safe'] = nested_safe
     outs = []
     earlier_states = []
     for prog, bud in zip(hist, budgets):
@@ -345,7 +352,7 @@ def work(task):
                               {'history': hist, 'budget_of_last_call': None, 'K_of_last_call': None, 'expected': 'ok',
                                'observed': '%d node evaluations under a foreign VM state' % sum(o[3] for o in base)})
                 continue
-            if any('nested(' in h for h in hist):
+            if any('nested(' in h or 'nested_safe(' in h for h in hist):
                 continue        # K would mix the nodes of the nested call (its own budget) with the outer ones
             if any(o[0].startswith('err') for o in base[:-1]):
                 continue
